@@ -45,6 +45,14 @@ if os.environ.get("SEED_STYLE") == "periphery":
              "or the interaction between two functions. At most one of the three may be in the property's central function.\n")
 
 
+if os.environ.get("SEED_STYLE") == "interaction":
+    STYLE = ("- This time prefer changes whose effect needs TWO things to line up: two cooperating edits in different functions that are "
+             "each harmless alone; state left over from an earlier call so that only the second (or a repeated, or a re-entrant) call "
+             "misbehaves; an error / timeout / early-exit path that leaves state half-updated; an ordering between two threads or two "
+             "messages; a default or constant that matters only for one rarely used option. Avoid plain off-by-one edits in the "
+             "property's central function.\n")
+
+
 def main():
     rd, k0 = sys.argv[1], int(sys.argv[2])
     pids = sys.argv[3:]
